@@ -283,6 +283,47 @@ func anyTable(name string, vals []Val, A, B []any, emit func(Table), modes ...st
 	}
 }
 
+// mutatedTable: one collator ranks every pair; then every object is changed *in
+// place* into another value of the universe (the next one among the values
+// sorted by size, so that most objects keep their size) and the same collator
+// ranks every pair again.  Nothing a collator remembers about an object it has
+// seen (sorted keys, sizes, earlier verdicts) may show in the second table.
+func mutatedTable(name string, ds []Desc, valOf func(Desc) Val, build func(Desc) any, rebuild func(obj any, d Desc)) []Table {
+	var n = len(ds)
+	var order = append([]Desc{}, ds...)
+	sort.SliceStable(order, func(i, j int) bool { return descSize(order[i]) < descSize(order[j]) })
+	var A, B = make([]any, n), make([]any, n)
+	var vals = make([]Val, n)
+	for i, d := range order {
+		A[i], B[i] = build(d), build(d)
+		vals[i] = valOf(d)
+	}
+	var c = age.Collator[any]().Make()
+	var mk = func() age.CollatorLike[any] { return c }
+	var out []Table
+	var t1 = Table{Name: name + "#before", Vals: vals}
+	compute(&t1, mk, A, B, "shared-before-mutation", 13)
+	out = append(out, t1)
+	var vals2 = make([]Val, n)
+	for i := range order {
+		var d = order[(i+1)%n]
+		rebuild(A[i], d)
+		rebuild(B[i], d)
+		vals2[i] = valOf(d)
+	}
+	var t2 = Table{Name: name + "#after", Vals: vals2}
+	compute(&t2, mk, A, B, "shared-after-mutation-in-place", 17)
+	out = append(out, t2)
+	return out
+}
+
+func descSize(d Desc) int {
+	if d.K == "map" {
+		return len(d.Ps)
+	}
+	return len(d.Es)
+}
+
 // Universe is the structural universe exported by TLC, by group.
 type Universe map[string][]Desc
 
@@ -344,6 +385,95 @@ func StructTables(u Universe, emit func(Table)) {
 			B[i] = buildMap(d, kind, leafInt, func(v Desc) string { return leafString(v.C) }, true)
 		}
 		anyTable("map/"+kind+"/int-string", vals, A, B, emit)
+	}
+	// maps with many keys (their keys are sorted by the sorter: sizes around its
+	// run boundaries), the two copies filled in opposite orders
+	{
+		var bigKey = func(c int) string { return fmt.Sprintf("k%02d", c) }
+		var intOf = func(v Desc) int { return leafInt(v.C) }
+		var ds []Desc
+		for _, n := range []int{16, 17, 20, 21, 22, 23, 24, 25, 32, 33, 37, 41, 48} {
+			for variant := 0; variant < 2; variant++ {
+				var d = Desc{K: "map"}
+				for i := 0; i < n; i++ {
+					var v = 1
+					if variant == 1 && i == n-1 {
+						v = 2
+					}
+					d.Ps = append(d.Ps, [2]Desc{{K: "leaf", C: i}, {K: "leaf", C: v}})
+				}
+				ds = append(ds, d)
+			}
+		}
+		for _, kind := range []string{"gomap", "Map"} {
+			var A, B = make([]any, len(ds)), make([]any, len(ds))
+			for i, d := range ds {
+				A[i] = buildMap(d, kind, bigKey, intOf, false)
+				B[i] = buildMap(d, kind, bigKey, intOf, true)
+			}
+			anyTable("bigmap/"+kind+"/string-int", pinned(ds), A, B, emit)
+		}
+	}
+	// objects changed in place between two rounds with one collator
+	{
+		var intOf = func(v Desc) int { return leafInt(v.C) }
+		for _, t := range mutatedTable("mut/gomap/string-int", maps, func(d Desc) Val { return Val{D: d, Pin: true} },
+			func(d Desc) any { return buildMap(d, "gomap", leafString, intOf, false) },
+			func(obj any, d Desc) {
+				var m = obj.(map[string]int)
+				for k := range m {
+					delete(m, k)
+				}
+				for _, p := range d.Ps {
+					m[leafString(p[0].C)] = intOf(p[1])
+				}
+			}) {
+			emit(t)
+		}
+		for _, t := range mutatedTable("mut/Map/string-int", maps, func(d Desc) Val { return Val{D: d, Pin: true} },
+			func(d Desc) any { return buildMap(d, "Map", leafString, intOf, false) },
+			func(obj any, d Desc) {
+				var m = obj.(col.MapLike[string, int])
+				m.RemoveAll()
+				for _, p := range d.Ps {
+					m.SetValue(leafString(p[0].C), intOf(p[1]))
+				}
+			}) {
+			emit(t)
+		}
+		for _, t := range mutatedTable("mut/Catalog/string-int", maps, func(d Desc) Val { return Val{D: assocSeq(d.Ps), Pin: true} },
+			func(d Desc) any { return buildMap(d, "Catalog", leafString, intOf, false) },
+			func(obj any, d Desc) {
+				var m = obj.(col.CatalogLike[string, int])
+				m.RemoveAll()
+				for _, p := range d.Ps {
+					m.SetValue(leafString(p[0].C), intOf(p[1]))
+				}
+			}) {
+			emit(t)
+		}
+		for _, t := range mutatedTable("mut/List/int", flat, func(d Desc) Val { return Val{D: d, Pin: true} },
+			func(d Desc) any { return buildSeq(d, "List", leafInt) },
+			func(obj any, d Desc) {
+				var l = obj.(col.ListLike[int])
+				l.RemoveAll()
+				for _, e := range d.Es {
+					l.AppendValue(leafInt(e.C))
+				}
+			}) {
+			emit(t)
+		}
+		for _, t := range mutatedTable("mut/slice/int", flat, func(d Desc) Val { return Val{D: d, Pin: true} },
+			func(d Desc) any { var a = buildSeq(d, "slice", leafInt).([]int); return &a },
+			func(obj any, d Desc) {
+				var a = obj.(*[]int)
+				*a = (*a)[:0]
+				for _, e := range d.Es {
+					*a = append(*a, leafInt(e.C))
+				}
+			}) {
+			emit(t)
+		}
 	}
 	// associations: key then value
 	{
